@@ -64,6 +64,8 @@ def ref_acyclic(n: int, edges: List[Tuple[int, int]], consts: Optional[Dict[int,
 def run(repo: Repo, rep: Report) -> None:
     rep.rule("ENC-S", "active_edges_acyclic posts the reference at-most-one-lower-parent schema with pairwise distinct neighbour ranks (deviations triaged by projection)")
     rep.saw(GRAPH, "active_edges_acyclic")
+    from .encodings import standard_history
+    standard_history(repo, rep, "active_edges_acyclic", "edges", grid=False)
     deviating = []
     xitems: List[Any] = []
     n_ok = 0
